@@ -67,8 +67,8 @@ FamilyIntent ==
   pc = "loaded" =>
     CASE fv.kind \in {"twin", "c13s", "c13p", "c13x", "c14", "c15", "c16"} -> Violations(schema) = {}
       [] fv.pl = "imported" -> Violations(schema) = {}
-      [] OTHER -> /\ \E v \in Violations(schema) : v.rule = fv.rule /\ v.offender = OffenderName(fv.rule)
-                  /\ \A v \in Violations(schema) : v.rule = fv.rule
+      [] OTHER -> /\ \E v \in Violations(schema) : v.rule = BaseRule(fv.rule) /\ v.offender = OffenderName(fv.rule)
+                  /\ \A v \in Violations(schema) : v.rule = BaseRule(fv.rule)
 C12_Reject == (pc = "loaded" /\ Violations(schema) # {}) => \A p \in {"go-http"} : \A o \in Outcomes(p) : o.exit = "error" /\ o.nfiles = 0
 C12_Accept == (pc = "loaded" /\ Violations(schema) = {}) => \A p \in Plugins : \A o \in Outcomes(p) : o.exit = "files"
 =============================================================================
